@@ -155,14 +155,17 @@ Samplers:
       SampleRate: 2
       ClearFrequency: 1s
       FieldList:
-        - http.status_code
         - service.name
+        - http.status_code
+        - name
+        - actor
       UseTraceLength: true
   env1:
     EMADynamicSampler:
       GoalSampleRate: 2
       AdjustmentInterval: 1s
       FieldList:
+        - service.name
         - http.status_code
 `,
 	// 2: rules with a downstream sampler
@@ -195,6 +198,8 @@ Samplers:
               GoalSampleRate: 3
               FieldList:
                 - service.name
+                - name
+                - http.status_code
         - Name: default
           SampleRate: 2
   ds1:
@@ -210,19 +215,23 @@ Samplers:
       AdjustmentInterval: 1s
       FieldList:
         - service.name
+        - http.status_code
   ds0:
     WindowedThroughputSampler:
       GoalThroughputPerSec: 50
       UpdateFrequency: 200ms
       LookbackFrequency: 1s
       FieldList:
+        - name
         - http.status_code
+        - actor
   env1:
     TotalThroughputSampler:
       GoalThroughputPerSec: 50
       ClearFrequency: 1s
       FieldList:
         - service.name
+        - name
 `,
 	// 4: drop heavy
 	`RulesVersion: 2
@@ -242,6 +251,14 @@ Samplers:
               Datatype: int
         - Name: drop the rest
           Drop: true
+  ds1:
+    DynamicSampler:
+      SampleRate: 50
+      ClearFrequency: 1s
+      FieldList:
+        - service.name
+        - name
+        - http.status_code
   env1:
     DeterministicSampler:
       SampleRate: 100
@@ -390,8 +407,8 @@ func c35Build(sc c35Scenario, dir string) (*c35World, *c35Fake, []*c35Fake, erro
 	if err := w.files.setConfigVariant(0); err != nil {
 		return nil, nil, nil, err
 	}
-	// setRules(0) selects rule set 0 (keep all), or 4 (drop heavy) in a drop-heavy scenario
-	if err := w.files.setRules(0); err != nil {
+	// InitRules 0 selects rule set 0 (keep all), or 4 (drop heavy) in a drop-heavy scenario
+	if err := w.files.setRules(sc.InitRules); err != nil {
 		return nil, nil, nil, err
 	}
 
